@@ -32,6 +32,9 @@ type GCase struct {
 	// Poison: encodings that fail (a non-finite ordinate in a later member; a bbox of
 	// nothing) precede the calls under test; they must leave nothing behind.
 	Poison bool `json:"poison,omitempty"`
+	// Deep: the geometry is also written and read at the bottom of this many nested
+	// GeometryCollections.
+	Deep int `json:"deep,omitempty"`
 }
 
 var jsonLayouts = []geom.Layout{geom.XY, geom.XYZ, geom.XYZM, geom.XYM, geom.Layout(5), geom.Layout(6), geom.Layout(7), geom.XY, geom.XYZ}
@@ -48,6 +51,7 @@ func genGCase(t *rapid.T) GCase {
 		Default: int(rapid.SampledFrom([]geom.Layout{geom.XY, geom.XY, geom.XYZ}).Draw(t, "default")),
 		Route:   rapid.IntRange(0, int(model.NumRoutes)-1).Draw(t, "route"),
 		Poison:  rapid.IntRange(0, 3).Draw(t, "poison") == 0,
+		Deep:    rapid.SampledFrom([]int{0, 0, 0, 0, 0, 0, 0, 0, 0, 0, 0, 0, 0, 0, 0, 0, 0, 0, 0, 0, 0, 0, 0, 0, 0, 0, 0, 0, 0, 0, 5, 16, 31, 32, 33, 64, 65, 130}).Draw(t, "deep"),
 	}
 }
 
@@ -241,6 +245,35 @@ func propG(c GCase) error {
 		}
 		if d := diffJSON(exp, bmAgain); d != "" {
 			return fmt.Errorf("the geometry returned by geojson.Unmarshal changed when other documents were decoded afterwards: %s", d)
+		}
+		// the geometry at the bottom of a tower of nested collections
+		if c.Deep > 0 {
+			var top geom.T = t
+			gm := g.Clone()
+			ok := true
+			for i := 0; i < c.Deep && ok; i++ {
+				w := geom.NewGeometryCollection()
+				ok = w.Push(top) == nil
+				top = w
+				gm = &model.G{Kind: model.GeometryCollection, Members: []model.G{*gm}}
+			}
+			if expD, okD := expected(gm, geom.Layout(c.Default)); ok && okD {
+				dataD, err := geojson.Marshal(top)
+				if err != nil {
+					return fmt.Errorf("geojson.Marshal of %d nested collections: %v", c.Deep, err)
+				}
+				var backD geom.T
+				if err := geojson.Unmarshal(dataD, &backD); err != nil {
+					return fmt.Errorf("geojson.Unmarshal of %d nested collections: %v", c.Deep, err)
+				}
+				bmD, err := model.FromGeom(backD)
+				if err != nil {
+					return fmt.Errorf("decoded geometry not well formed: %v", err)
+				}
+				if d := diffJSON(expD, bmD); d != "" {
+					return fmt.Errorf("round trip of %d nested collections differs: %s", c.Deep, d)
+				}
+			}
 		}
 		// the same geometry object as a member in several places of a collection tree
 		// (a value, not a cycle): GEOMETRYCOLLECTION(g, GEOMETRYCOLLECTION(g), g)
